@@ -17,7 +17,7 @@
 (* try_reset; try_reset = w + 1, reset when w reaches the sample size;     *)
 (* reset halves every counter and clears the doorkeeper.                   *)
 (***************************************************************************)
-EXTENDS Naturals, FiniteSets
+EXTENDS Naturals, FiniteSets, Sequences
 
 TLInit(Keys) == [w |-> 0, dk |-> {}, cnt |-> [k \in Keys |-> 0]]
 Halve(e) == [w |-> 0, dk |-> {}, cnt |-> [k \in DOMAIN e.cnt |-> e.cnt[k] \div 2]]
@@ -30,25 +30,65 @@ Exact(e, k) == e.cnt[k] + (IF k \in e.dk THEN 1 ELSE 0)
 \* what WTinyLFUCache::get/get_mut do to the estimator: try_reset, then increment
 TAccess(e, k, samples) == TIncrement(TTick(e, samples), k, samples)
 
+RECURSIVE TIncrementAll(_, _, _)
+TIncrementAll(e, ks, samples) ==
+  IF Len(ks) = 0 THEN e ELSE TIncrementAll(TIncrement(e, ks[1], samples), Tail(ks), samples)
 TApply(op, e, samples) ==
   CASE op.op = "increment" -> TIncrement(e, op.k, samples)
+    [] op.op = "increment_keys" -> TIncrementAll(e, op.ks, samples)    \* increment_keys / increment_hashed_keys
     [] op.op = "try_reset" -> TTick(e, samples)
     [] op.op = "clear"     -> TClear(e)
     [] OTHER               -> e
 
 (***************************************************************************)
-(* Observation-level step relation.  An observation o of the real          *)
-(* estimator over a key universe carries, per key, ctr[k] (sketch minimum, *)
-(* = estimate minus doorkeeper bit), dk[k] (doorkeeper answer) and w.      *)
-(* ObsAsE turns it into the abstract shape so that the same operators can  *)
-(* be applied to it: for the key that an operation touches the real        *)
-(* structure must evolve EXACTLY like the abstract one (every counter of a *)
-(* key is bumped/halved together, so its minimum evolves like a single     *)
-(* counter); other keys may additionally gain from collisions.             *)
+(* Observation-level step relation (used by TinyLFUTrace and, for the      *)
+(* estimator embedded in W-TinyLFU, by WTinyLFUTrace).                      *)
+(* An observation o of the real estimator over the key universe 1..n       *)
+(* carries est[k] (estimate), dk[k] (doorkeeper answer), w and samples.    *)
+(* Ctr(o,k) = est[k] - dk[k] is the sketch minimum of k.                    *)
+(* For the key an operation touches the real structure must evolve EXACTLY *)
+(* like the abstract one (all four counters of a key are bumped / halved   *)
+(* together, so their minimum evolves like a single saturating counter);   *)
+(* an untouched key may additionally gain from a collision: its minimum    *)
+(* rises by at most one per increment and its doorkeeper answer may turn   *)
+(* true (false positive), never false, between resets.                     *)
 (***************************************************************************)
-OneSided(Keys, pre, post, touched) ==
-  \* post is what the abstract operators give from pre; obs may exceed it for untouched keys
-  TRUE
+OCtr(o, k) == o.est[k] - (IF o.dk[k] THEN 1 ELSE 0)
+OKeys(o) == 1..Len(o.est)
+Sat(c) == IF c < 15 THEN c + 1 ELSE c
+\* one tick (try_reset) on the observation of key k: <<ctr, dk, w, reset?>>
+OTick(c, d, w, samples) == IF w + 1 >= samples THEN <<c \div 2, FALSE, 0, TRUE>> ELSE <<c, d, w + 1, FALSE>>
+\* increment of key k seen from key k itself
+OIncSelf(c, d, w, samples) ==
+  LET c1 == IF d THEN Sat(c) ELSE c IN OTick(c1, TRUE, w, samples)
+\* increment of ANOTHER key seen from key x: may or may not collide
+OIncOther(c, d, w, samples) ==
+  {OTick(cc, dd, w, samples) : cc \in {c, Sat(c)}, dd \in {d, TRUE}}
+\* post observation agrees with one abstract operation applied to the pre observation
+ObsIncrement(pre, post, k) ==
+  /\ \A x \in OKeys(pre) :
+       LET got == <<OCtr(post, x), post.dk[x], post.w>> IN
+       IF x = k
+       THEN LET e == OIncSelf(OCtr(pre, x), pre.dk[x], pre.w, pre.samples) IN got = <<e[1], e[2], e[3]>>
+       ELSE \E e \in OIncOther(OCtr(pre, x), pre.dk[x], pre.w, pre.samples) : got = <<e[1], e[2], e[3]>>
+\* several increments in one call (increment_keys): per key, the set of possible <<ctr, dk, w>>
+\* triples is pushed through the increments one by one
+RECURSIVE ObsFold(_, _, _, _)
+ObsFold(S, x, ks, samples) ==
+  IF Len(ks) = 0 THEN S
+  ELSE LET S1 == IF ks[1] = x
+                 THEN {LET e == OIncSelf(t[1], t[2], t[3], samples) IN <<e[1], e[2], e[3]>> : t \in S}
+                 ELSE UNION {{<<e[1], e[2], e[3]>> : e \in OIncOther(t[1], t[2], t[3], samples)} : t \in S}
+       IN ObsFold(S1, x, Tail(ks), samples)
+ObsIncrementKeys(pre, post, ks) ==
+  \A x \in OKeys(pre) :
+     <<OCtr(post, x), post.dk[x], post.w>> \in ObsFold({<<OCtr(pre, x), pre.dk[x], pre.w>>}, x, ks, pre.samples)
+ObsTryReset(pre, post) ==
+  \A x \in OKeys(pre) :
+     LET e == OTick(OCtr(pre, x), pre.dk[x], pre.w, pre.samples) IN
+     <<OCtr(post, x), post.dk[x], post.w>> = <<e[1], e[2], e[3]>>
+ObsClear(post) == post.w = 0 /\ \A x \in OKeys(post) : post.est[x] = 0 /\ ~post.dk[x]
+ObsUnchanged(pre, post) == post.est = pre.est /\ post.dk = pre.dk /\ post.w = pre.w
 
-EstBounds(est) == \A k \in DOMAIN est : est[k] >= 0 /\ est[k] <= 16
+EstBounds(est) == \A k \in 1..Len(est) : est[k] >= 0 /\ est[k] <= 16
 =============================================================================
